@@ -2,7 +2,7 @@
     of the library as a function from a list of byte strings to a result
     class and a list of byte strings (the projected observables).  The Go
     harness implements the same table on top of the real code. *)
-From DV Require Import Base.Bytes Label.Model V4.Model V4.Accessors V4.Builders V6.Model V6.Dump V6.Relay Raw.Model Client.Call Client.Routing Client.Macro.
+From DV Require Import Base.Bytes Label.Model V4.Model V4.Accessors V4.Builders V6.Model V6.Dump V6.Relay Raw.Model Client.Call Client.Routing Client.Macro Server.Model.
 
 
 (** entry 1: rfc1035label.FromBytes(b) -> Labels *)
@@ -275,6 +275,39 @@ Definition e_routing (args : list bytes) : res (list bytes) :=
   | _ => Err
   end.
 
+(** * servers (entries 80 server4, 81 server6): args = one per ReadFrom result *)
+Definition fixed_peer_v4 : bytes := [n2b 10; x01; x02; x03].
+Definition fixed_peer_v6 : bytes := [xfe; n2b 128] ++ zeros 13 ++ [x01].
+Definition read_of_arg (b : bytes) : option read_result :=
+  match b with
+  | k :: pk :: ph :: pl :: payload =>
+    if (bnat k =? 0)%nat then
+      let port := rd16 ph pl in
+      Some (Datagram payload
+        (match bnat pk with
+         | 0 => PeerUDP None port
+         | 1 => PeerUDP (Some (zeros 4)) port
+         | 2 => PeerUDP (Some fixed_peer_v4) port
+         | 3 => PeerUDP (Some fixed_peer_v6) port
+         | 5 => PeerUDP (Some (v4_in_v6_prefix ++ zeros 4)) port
+         | _ => PeerOther
+         end)%nat)
+    else Some ReadError
+  | _ => Some ReadError
+  end.
+Fixpoint reads_of_args (a : list bytes) : list read_result :=
+  match a with [] => [] | b :: r => match read_of_arg b with Some x => x :: reads_of_args r | None => reads_of_args r end end.
+
+Definition e_server4 (args : list bytes) : res (list bytes) :=
+  let (invs, exited) := serve4 (reads_of_args args) [] in
+  Ok (flat_map (fun i => [i4_ip i; be16 (i4_port i); enc4_bytes (i4_msg i)]) invs ++ [[if exited then x01 else x00]]).
+Definition e_server6 (args : list bytes) : res (list bytes) :=
+  let (invs, exited) := serve6 (reads_of_args args) [] in
+  Ok (flat_map (fun i => match i6_peer i with
+                         | PeerUDP ip port => [obytes ip; be16 port; enc_msg (i6_msg i)]
+                         | PeerOther => [[]; []; enc_msg (i6_msg i)]
+                         end) invs ++ [[if exited then x01 else x00]]).
+
 Definition run (entry : N) (args : list bytes) : res (list bytes) :=
   match entry with
   | 1 => e_label_from args
@@ -294,6 +327,8 @@ Definition run (entry : N) (args : list bytes) : res (list bytes) :=
   | 70 => e_timed_call args
   | 71 => e_timed_call args
   | 72 => e_routing args
+  | 80 => e_server4 args
+  | 81 => e_server6 args
   | 73 => e_routing args
   | 61 => e_raw_read args
   | 51 => e_v6_decap args
